@@ -23,7 +23,12 @@ type StateEnv struct {
 
 // NewStateEnv builds the stack over the given disks and positions the accounts DB on root (nil = empty state).
 func NewStateEnv(disk, ewlDisk *simkit.SimDisk, cacheCap int, maxLevel uint, ewlSize uint, cfg config.TrieStorageManagerConfig, holderSize uint64, root []byte) (*StateEnv, error) {
-	env, err := NewEnv(disk, cacheCap, cfg, holderSize)
+	return NewStateEnvGated(disk, ewlDisk, cacheCap, maxLevel, ewlSize, cfg, holderSize, root, nil, 0)
+}
+
+// NewStateEnvGated is NewStateEnv with a gate in front of the main trie DB (see NewEnvGated).
+func NewStateEnvGated(disk, ewlDisk *simkit.SimDisk, cacheCap int, maxLevel uint, ewlSize uint, cfg config.TrieStorageManagerConfig, holderSize uint64, root []byte, gate func(op string, key []byte), snapshotDelay int) (*StateEnv, error) {
+	env, err := NewEnvGated(disk, cacheCap, cfg, holderSize, gate, snapshotDelay)
 	if err != nil {
 		return nil, err
 	}
